@@ -70,4 +70,122 @@ example : link_roots_to_nearest_ (normOf (σ := Unit) 5
       (fun i j => let xs : List Int := [0, 1, 5, 6, 8]; (xs.getD i 0 - xs.getD j 0) * (xs.getD i 0 - xs.getD j 0))) 27
     (rowIds 5) [-1, 0, -1, 2, -1] () = some ([-1, 0, 4, 2, 1], (), ()) := by decide +kernel
 
+/-! ## the repair dispatch of `read_swc` (from `# fix swc` to the end), as translated -/
+
+/-- **an unknown `fix_roots` raises when there are several roots** (whatever the other options) -/
+theorem generated_readFix_unknown_raises {σ : Type} [Inhabited σ] (norm : σ → Int → σ × List Int) (fuel : Nat)
+    (ids pids types rs : List Int) (m : String) (srt rst : Bool) (cbs : σ)
+    (h1 : m ≠ "somas") (h2 : m ≠ "nearest") (hc : countNonzero (eqMask pids (-1)) > 1) :
+    read_swc_fix norm fuel ids pids types rs (some m) srt rst cbs = none := by
+  rw [readFix_stages]; simp [fixStage, hc, h1, h2]
+
+/-- **… and only then: with at most one root `fix_roots` is never looked at** — any value, known or not, gives what `fix_roots=False` gives -/
+theorem generated_readFix_few_roots {σ : Type} [Inhabited σ] (norm : σ → Int → σ × List Int) (fuel : Nat)
+    (ids pids types rs : List Int) (m : String) (srt rst : Bool) (cbs : σ) (hc : ¬ countNonzero (eqMask pids (-1)) > 1) :
+    read_swc_fix norm fuel ids pids types rs (some m) srt rst cbs = read_swc_fix norm fuel ids pids types rs none srt rst cbs := by
+  rw [readFix_stages, readFix_stages]; simp [fixStage, hc]
+
+/-- **`fix_roots=False` (default options otherwise) leaves the columns exactly as `reset_index_` alone gives them** — several roots are
+kept, each with its `-1` — and returns the warnings of the check stage on that table (an exception exactly when `is_single_root` raises) -/
+theorem generated_readFix_plain {σ : Type} [Inhabited σ] (norm : σ → Int → σ × List Int) (fuel : Nat)
+    (ids pids types rs : List Int) (cbs : σ) (hl : ids.length = pids.length) (hr : (-1 : Int) ∈ pids) :
+    read_swc_fix norm fuel ids pids types rs none false true cbs =
+      (checkStage fuel (ids.map (fun i => i - ids.getD (firstRootLoc pids) 0))
+          (pids.map (fun p => if p = -1 then -1 else p - ids.getD (firstRootLoc pids) 0)) rs).map fun w =>
+        (ids.map (fun i => i - ids.getD (firstRootLoc pids) 0),
+         pids.map (fun p => if p = -1 then -1 else p - ids.getD (firstRootLoc pids) 0), types, rs, w, cbs, ()) := by
+  rw [readFix_stages]; simp [fixStage, normStage, generated_resetIndex ids pids hl hr]
+
+theorem rowIds_getD (n k : Nat) (h : k < n) : (rowIds n).getD k 0 = (k : Int) := by
+  simp [rowIds, List.getD_eq_getElem?_getD, h]
+
+/-- the checks of `read_swc` return on every row-numbered table whose parents name rows -/
+theorem checkStage_total (pids rs : List Int) (hpos : 0 < pids.length)
+    (hv : ∀ k (h : k < pids.length), pids[k] = -1 ∨ (0 ≤ pids[k] ∧ pids[k] < pids.length)) :
+    ∃ w, checkStage (pids.length * pids.length + 2) (rowIds pids.length) pids rs = some w := by
+  obtain ⟨b, hb, _⟩ := generated_isSingleRoot_total pids hpos hv
+  have hne : (eqMask pids (-1)).isEmpty = false := by
+    cases pids with
+    | nil => simp at hpos
+    | cons a l => simp [eqMask]
+  unfold checkStage
+  rw [hb]
+  simp [argmaxMask, hne]
+
+/-- **`fix_roots="somas"` as translated, several roots**: the call returns, with the model's columns; exactly the first root of the input is
+a root afterwards and every row that had a parent keeps it (ids, radii untouched; `sort_nodes=False`, `reset_index=False`) -/
+theorem generated_readFix_somas {σ : Type} [Inhabited σ] (norm : σ → Int → σ × List Int) (pids types rs : List Int) (cbs : σ)
+    (hv : ∀ k (h : k < pids.length), pids[k] = -1 ∨ (0 ≤ pids[k] ∧ pids[k] < pids.length))
+    (hr : firstRootLoc pids < pids.length) (hc : countNonzero (eqMask pids (-1)) > 1) :
+    ∃ (res : List Int) (tys w : List Int),
+      read_swc_fix norm (pids.length * pids.length + 2) (rowIds pids.length) pids types rs (some "somas") false false cbs =
+        some (rowIds pids.length, res, tys, rs, w, cbs, ()) ∧
+      ∃ hl : res.length = pids.length,
+      (∀ k (h : k < res.length), res[k] = -1 ↔ k = firstRootLoc pids) ∧
+      (∀ k (h : k < res.length), pids[k]'(hl ▸ h) ≠ -1 → res[k] = pids[k]'(hl ▸ h)) := by
+  have hid : ∀ i ∈ rowIds pids.length, i ≠ -1 := by
+    intro i hi
+    simp only [rowIds, List.mem_map] at hi
+    obtain ⟨m, _, rfl⟩ := hi
+    have : (0 : Int) ≤ Int.ofNat m := Int.natCast_nonneg m
+    omega
+  obtain ⟨hlen, hroot, hkeep, hother, _⟩ := repair_somas (rowIds pids.length) pids types (some 1) (by simp) hr hid
+  generalize hres : markRootsAsSomas (rowIds pids.length) pids types (some 1) = R at hlen hroot hkeep hother
+  have hvR : ∀ k (h : k < R.1.length), R.1[k] = -1 ∨ (0 ≤ R.1[k] ∧ R.1[k] < R.1.length) := by
+    intro k h
+    have h' : k < pids.length := hlen ▸ h
+    by_cases e : pids[k] = -1
+    · by_cases ek : k = firstRootLoc pids
+      · left; exact (hroot k h).2 ek
+      · right
+        rw [hother k h h' e ek, rowIds_getD _ _ hr, hlen]
+        omega
+    · right
+      rw [hkeep k h h' e, hlen]
+      rcases hv k h' with c | c
+      · exact absurd c e
+      · exact c
+  obtain ⟨w, hw⟩ := checkStage_total R.1 rs (by omega) hvR
+  rw [hlen] at hw
+  refine ⟨R.1, R.2, w, ?_, hlen, hroot, fun k h => hkeep k h (hlen ▸ h)⟩
+  rw [readFix_stages]
+  simp [fixStage, hc, generated_markRoots_eq_model (rowIds pids.length) pids types (some 1) (by simp) (root_mem pids hr), hres, normStage, hw]
+
+/-- **`fix_roots="nearest"` as translated, on any forest with several roots, for any distances**: the call returns; exactly the first root
+of the input is a root afterwards, every row that had a parent keeps it, every parent names a row, and some measure drops along every
+parent pointer (one tree); ids, types, radii untouched (`sort_nodes=False`, `reset_index=False`) -/
+theorem generated_readFix_nearest {σ : Type} [Inhabited σ] (pids types rs : List Int) (dp : Nat → Nat) (dist2 : Nat → Nat → Int) (cbs : σ)
+    (hv : ∀ k (h : k < pids.length), pids[k] = -1 ∨ (0 ≤ pids[k] ∧ pids[k] < pids.length))
+    (hd : ∀ k (h : k < pids.length), pids[k] ≠ -1 → dp (pids[k]).toNat < dp k)
+    (hb : ∀ k, k < pids.length → dp k < pids.length)
+    (hr : firstRootLoc pids < pids.length) (hc : countNonzero (eqMask pids (-1)) > 1) :
+    ∃ (res w : List Int) (dp' : Nat → Nat),
+      read_swc_fix (normOf pids.length dist2) (pids.length * pids.length + 2) (rowIds pids.length) pids types rs (some "nearest") false false cbs =
+        some (rowIds pids.length, res, types, rs, w, cbs, ()) ∧
+      ∃ hl : res.length = pids.length,
+      (∀ k (h : k < res.length), res[k] = -1 ↔ k = firstRootLoc pids) ∧
+      (∀ k (h : k < res.length), pids[k]'(hl ▸ h) ≠ -1 → res[k] = pids[k]'(hl ▸ h)) ∧
+      (∀ k (h : k < res.length), res[k] ≠ -1 → 0 ≤ res[k] ∧ res[k] < pids.length ∧ dp' (res[k]).toNat < dp' k) := by
+  obtain ⟨res, dp', hres, hl, h1, h2, h3⟩ := generated_repair_nearest_tree (σ := σ) pids dp dist2 cbs hv hd hb hr
+  have hvR : ∀ k (h : k < res.length), res[k] = -1 ∨ (0 ≤ res[k] ∧ res[k] < res.length) := by
+    intro k h
+    by_cases e : res[k] = -1
+    · exact Or.inl e
+    · right; rw [hl]; exact ⟨(h3 k h e).1, (h3 k h e).2.1⟩
+  obtain ⟨w, hw⟩ := checkStage_total res rs (by omega) hvR
+  rw [hl] at hw
+  refine ⟨res, w, dp', ?_, hl, h1, h2, h3⟩
+  rw [readFix_stages]
+  simp [fixStage, hc, hres, normStage, hw]
+
+-- non-vacuity (kernel-evaluated; parent column, radii, warnings of the result): three fragments; "nearest", "somas", an unknown mode, no repair
+example : (read_swc_fix (normOf (σ := Unit) 5 (fun i j => let xs : List Int := [0, 1, 5, 6, 8]; (xs.getD i 0 - xs.getD j 0) * (xs.getD i 0 - xs.getD j 0)))
+    27 (rowIds 5) [-1, 0, -1, 2, -1] [1, 3, 3, 3, 3] [4, 4, 0, 4, 4] (some "nearest") false false ()).map (fun r => (r.2.1, r.2.2.2.1, r.2.2.2.2.1)) =
+    some ([-1, 0, 4, 2, 1], [4, 4, 0, 4, 4], [2]) := by decide +kernel
+example : (read_swc_fix (normOf (σ := Unit) 5 (fun _ _ => 0)) 27 (rowIds 5) [-1, 0, -1, 2, -1] [1, 3, 3, 3, 3] [4, 4, 4, 4, 4] (some "somas") false true ()).map
+    (fun r => (r.2.1, r.2.2.2.1, r.2.2.2.2.1)) = some ([-1, 0, 0, 2, 0], [4, 4, 4, 4, 4], []) := by decide +kernel
+example : (read_swc_fix (normOf (σ := Unit) 5 (fun _ _ => 0)) 27 (rowIds 5) [-1, 0, -1, 2, -1] [1, 3, 3, 3, 3] [4, 4, 4, 4, 4] (some "soma") false true ()).isNone = true ∧
+    (read_swc_fix (normOf (σ := Unit) 5 (fun _ _ => 0)) 27 (rowIds 5) [-1, 0, -1, 2, -1] [1, 3, 3, 3, 3] [4, 4, 4, 4, 4] none false true ()).map
+      (fun r => (r.2.1, r.2.2.2.1, r.2.2.2.2.1)) = some ([-1, 0, -1, 2, -1], [4, 4, 4, 4, 4], [0]) := by decide +kernel
+
 end C18
